@@ -651,8 +651,10 @@ impl<RW: QueueRW<T>, T> InnerRecv<RW, T> {
                 {
                     self.queue.manager.signal.set_reader(SeqCst);
                 }
-                self.queue.manager.remove_token(self.token);
             }
+            // every handle owns a token, not only the last one of its stream: a token that
+            // is never removed is never advanced again and stops reclamation for good
+            self.queue.manager.remove_token(self.token);
             fence(SeqCst);
             f()
         }
